@@ -19,6 +19,7 @@
      Feed      n      the next n bytes of the stream reached the reader's buffer
                       (any segmentation: a Feed may end inside a message or span several)
      Close            the peer closed; nothing is fed afterwards (end-of-stream)
+     SenderClose      the user of the SENDING transport called close() after its last write() had returned
      ReadBegin to     a read starts; to = its timeout in ms, 0 = none
      ReadEnd   r, c   it ends with r \in
                         "Msg"      a message was returned, c = its content class (0: not the
@@ -59,7 +60,8 @@ M0 == [v        |-> "ok",     \* verdict so far: "ok" or the label of the first 
        reading  |-> FALSE,    \* a read is in progress
        to       |-> 0,        \* ... its timeout
        availAtBegin |-> FALSE,\* ... the next message was completely buffered when it began
-       tmoMid   |-> FALSE]    \* a read timed out while part of the next message was buffered
+       tmoMid   |-> FALSE,    \* a read timed out while part of the next message was buffered
+       senderClosed |-> FALSE]\* the sending transport was closed by its user (all writes had returned)
 
 Total(m) == IF m.ends = <<>> THEN 0 ELSE m.ends[Len(m.ends)]
 \* the next undelivered message has been fed completely
@@ -108,7 +110,13 @@ Step(m, ev) ==
          [] ev.e = "Feed" ->
               IF m.closed \/ m.fed + ev.n > Total(m) THEN Fail(m, "H/feed-of-bytes-never-sent")
               ELSE [m EXCEPT !.fed = m.fed + ev.n]
-         [] ev.e = "Close" -> [m EXCEPT !.closed = TRUE]
+         [] ev.e = "SenderClose" -> [m EXCEPT !.senderClosed = TRUE]
+         [] ev.e = "Close" ->
+              \* the sender closed its transport in good order after every write had returned: the stream ends only
+              \* after everything handed to the transport ("is delivered to the peer as exactly that sequence")
+              IF m.senderClosed /\ m.fed < Total(m)
+              THEN Fail(m, "T1/message-handed-to-the-transport-never-reached-the-peer")
+              ELSE [m EXCEPT !.closed = TRUE]
          [] ev.e = "ReadBegin" ->
               IF m.reading THEN Fail(m, "H/overlapping-reads")
               ELSE [m EXCEPT !.reading = TRUE, !.to = ev.to, !.availAtBegin = Avail(m)]
